@@ -18,3 +18,7 @@ VF_API void vf_lcc_setscale(double stdlat1, double stdlat2, double lat, double k
   double g, k0, k1; p.Forward(0, plat, plon, out[0], out[1], g, k0); out[4] = k0;
   p.SetScale(lat, k); p.Forward(0, plat, plon, out[2], out[3], g, k1); out[5] = k1;
 }
+VF_API void vf_albers_cyl(double k0, double lat, double lon, double* out) {
+  AlbersEqualArea p(6378137.0, 1/298.257223563, 0.0, k0);      // single standard parallel on the equator: the cylindrical limit _n0 = 0
+  double x, y, g, k; p.Forward(0, lat, lon, x, y, g, k); p.Reverse(0, x, y, out[0], out[1], g, k); out[2] = x; out[3] = y; out[4] = p._n0;
+}
